@@ -161,7 +161,7 @@ def history_sql(path, h, upto):
 
 # ---------------------------------------------------------------- isolation re-run
 
-def confirm_all(binp, args, pid, jobs, scd, tag="c"):
+def confirm_all(binp, args, pid, jobs, scd, tag="c", attempt=1):
     """Re-run the history of every disagreeing statement alone (fresh process, fresh engine, up to
     that statement); all re-runs are validated together by TLC.  Returns, per job, the kept case file
     (the recorded re-run) iff the same projected disagreement showed again, else None."""
@@ -188,16 +188,25 @@ def confirm_all(binp, args, pid, jobs, scd, tag="c"):
     evs = sc.load_events(allp)
     mark_alterlow_runs(evs, owner)
     res = [None] * len(jobs)
-    for m in mms:
-        k = owner[m["line"]]
-        e2 = evs[m["line"]]
-        _, ev, proj = jobs[k]
-        if e2["id"] == ev["id"] and project(pid, m, e2) == proj and res[k] is None:
-            d = os.path.join(lib.VERIF, "replays", pid)
-            os.makedirs(d, exist_ok=True)
-            keep = os.path.join(d, "case-seed%d-id%d.ndjson" % (lib.seed(), ev["id"]))
-            shutil.copy(outs[k], keep)
-            res[k] = keep
+    # exact: the same statement disagrees in the same projection; otherwise (engine behaviour that
+    # depends on map iteration / unstable sort order) the same kind of disagreement anywhere in the
+    # re-run history prefix still shows the property broken for that history
+    for exact in (True, False):
+        for m in mms:
+            k = owner[m["line"]]
+            e2 = evs[m["line"]]
+            _, ev, proj = jobs[k]
+            if res[k] is None and project(pid, m, e2) == proj and (e2["id"] == ev["id"] or not exact):
+                d = os.path.join(lib.VERIF, "replays", pid)
+                os.makedirs(d, exist_ok=True)
+                keep = os.path.join(d, "case-seed%d-id%d.ndjson" % (lib.seed(), ev["id"]))
+                shutil.copy(outs[k], keep)
+                res[k] = keep
+    missing = [k for k in range(len(jobs)) if res[k] is None]
+    if missing and attempt < 3:
+        again = confirm_all(binp, args, pid, [jobs[k] for k in missing], scd, "%s%d" % (tag, attempt), attempt + 1)
+        for k, r in zip(missing, again):
+            res[k] = r
     return res
 
 
